@@ -1,10 +1,11 @@
 (* C10 — problem-class encodings have the stated ground states and decode consistently.
    Statements only; proofs in Proofs/ProblemsProofs.v.
 
-   Proved here, for every instance: VertexCover (value of the QUBO; with A > B > 0 every ground state is a minimum
+   Proved here, for every instance: BILP (value; with A > B*sum|c_i| and integer data every ground state is feasible and
+   optimal; is_solution_valid), VertexCover (value of the QUBO; with A > B > 0 every ground state is a minimum
    vertex cover and the ground energy is B * its size), NumberPartitioning (value of the QUSO; ground states are the
    splits of least |difference|, even splits with energy 0 when one exists; is_solution_valid), AlternatingSectorsChain
-   (open chain: value; ground states are the uniform states).  SetCover, BILP, JobSequencing, GraphPartitioning and the
+   (open chain: value; ground states are the uniform states).  SetCover, JobSequencing, GraphPartitioning and the
    periodic chain are modelled (Model/Problems.v) and tied to /repo by exact comparison of the produced matrices and by
    combinatorial oracles on the implementation (harness/props/c10.py); no theorem about their ground states is claimed. *)
 From QV.Model Require Import Base Matrix Arith Expr Extrema Sat PCBO Logic Convert PCSO Problems.
@@ -53,6 +54,27 @@ Theorem C10_asc_ground : forall N chain min_s max_s H z, asc_to_quso N chain min
   forall q, (q < N - 1)%nat -> z q * z (S q) == 1.
 Proof. exact asc_ground. Qed.
 Print Assumptions C10_asc_ground.
+
+(* ---- BILP: minimise c.x subject to S x = b (integer data) ---- *)
+Theorem C10_bilp_value : forall c S b A B Qf, bilp_to_qubo c S b A B = Ok Qf ->
+  (forall Sj bj, In (Sj, bj) (combine S b) -> length Sj = length c) ->
+  forall x, boolean_env x -> eval x (tm Qf) == B * lin c x + A * viol (combine S b) x.
+Proof. exact bilp_value. Qed.
+Print Assumptions C10_bilp_value.
+Theorem C10_bilp_ground : forall c S b A B Qf x0 xs, bilp_to_qubo c S b A B = Ok Qf ->
+  (forall Sj bj, In (Sj, bj) (combine S b) -> length Sj = length c) -> int_rows (combine S b) ->
+  0 < B -> B * sumabs c < A ->
+  boolean_env x0 -> feasible (combine S b) x0 ->
+  boolean_env xs -> (forall x, boolean_env x -> eval xs (tm Qf) <= eval x (tm Qf)) ->
+  feasible (combine S b) xs /\
+  (forall x, boolean_env x -> feasible (combine S b) x -> lin c xs <= lin c x) /\
+  eval xs (tm Qf) == B * lin c xs.
+Proof. exact bilp_ground. Qed.
+Print Assumptions C10_bilp_ground.
+Theorem C10_bilp_valid : forall S b (xb : label -> bool),
+  bilp_valid S b xb = true <-> feasible (combine S b) (fun i => if xb i then 1 else 0).
+Proof. exact bilp_valid_iff. Qed.
+Print Assumptions C10_bilp_valid.
 
 (* non-vacuity: the path 0-1-2 with A = 2, B = 1 *)
 Example C10_example : exists Qf, vc_to_qubo 3 [(0, 1); (1, 2)]%nat 2 1 = Ok Qf /\ kd Qf = KQuboM /\ (0 < length (tm Qf))%nat.
